@@ -300,10 +300,15 @@ impl World {
             // unwinding (dropping the closure's guards): settle until the task has left the set
             // of running tasks, giving up after 2 s of real time — the verdict itself is the
             // content of a later response, so it is the same on every replay
-            let t0 = std::time::Instant::now();
+            // The cap is counted in polls (each one sleeps and so hands the processor to the
+            // pool thread), not in elapsed time: a stall of the whole machine (seen once: two
+            // shards of one batch reported this verdict at the same moment and neither replayed)
+            // must not end the wait before the unwinding thread had a chance to run.
+            let mut polls = 0u32;
             loop {
                 let still = self.app_data.currently_running.lock().map(|g| g.iter().any(|r| r.username == rec.username && r.adf_name == rec.adf_name && format!("{:?}", r.task) == rec.task)).unwrap_or(false);
-                if !still || t0.elapsed() > Duration::from_secs(2) {
+                polls += 1;
+                if !still || polls > 20_000 {
                     break;
                 }
                 std::thread::sleep(Duration::from_micros(100));
